@@ -6,6 +6,29 @@ import sys
 
 VERIF = os.path.dirname(os.path.dirname(os.path.abspath(__file__)))
 
+SYSTEM_STAGE = {"C05": "exhaustively on small constants (quick: one 2.0 object, three handles; thorough: both objects, two markings)",
+                "C13": "exhaustively on small constants (quick: one 2.1 object, three handles; thorough: both objects, two markings)",
+                "C18": "exhaustively on small constants (quick: one 2.0 object, three handles; thorough: both objects, two markings)",
+                "C01": "on every simulated behaviour", "C07": "on every simulated behaviour", "C08": "on every simulated behaviour", "C11": "on every simulated behaviour",
+                "C12": "on every simulated behaviour"}
+GEN7 = {
+    "C01": "content of a custom type is met by the parser before the type is registered (stand-alone, bundle member, container member), then registered, then round-tripped.",
+    "C02": "timestamp VALUES donated by objects of the other spec version (and of bundles) to constructors and new_version(modified=...): the receiving property's precision rules apply.",
+    "C03": "valid instances on the boundary of every order constraint of the frozen model (equal instants where admitted, one millisecond apart, far apart).",
+    "C04": "the constructors' keyword custom_properties arriving as a member of nested JSON (embedded objects, container members, bundle members).",
+    "C05": "kind sco4 in Versioning.tla: an observable whose identifier its producer chose (not UUIDv5) has no locked properties, interleaved with UUIDv5 ones of the same type.",
+    "C06": "containers the caller goes on using after handing them over (templates filled in a loop): the identifier stays that of the content held.",
+    "C08": "hosts in which one Python container instance stands at two places.",
+    "C10": "TLC-enumerated and random patterns are also parsed under the 2.0 grammar where that grammar admits them.",
+    "C11": "load_from_file into a store that already holds versions of the same ids.",
+    "C12": "one long-lived filesystem source asked before and after a type directory comes into being / changes layout.",
+    "C13": "factory defaults given as the caller's lists, create() with single values, lists or nothing, list_append on and off, several calls in a row.",
+    "C14": "stored files re-read under the other version arguments (by the same and by another source) before the judged read.",
+    "C15": "datetimes sharing ONE tzinfo object whose offset depends on the date (hand-made daylight-saving zones and zoneinfo zones).",
+    "C17": "the registry state includes what every registered class says about itself (property tables by name and identity); refused objects claiming several registered extensions.",
+    "C18": "filters attached to a composite / environment / outer composite over one member holding several versions of an id in every storage order.",
+    "C19": "one definition class registered for both spec versions (with and without an extension of its own, either order, derived class): both types keep the built-in guarantees.",
+}
 # property id -> (engine, technique, level text, level note, design ref)
 CHECKS = {
     "C20": ("confidence", "TLA+ spec of the five scale tables; TLC exhaustive; complete table replay + trace validation",
@@ -151,6 +174,15 @@ def build():
         pid = p["id"]
         if pid in CHECKS:
             eng, tech, text, note, ref = CHECKS[pid]
+            if pid in SYSTEM_STAGE:
+                tech += "; composition spec Stix2System.tla (TLC exhaustive / simulated behaviours replayed call by call)"
+                text += (" A further stage binds the composition spec/Stix2System.tla (one population of objects going through versioning, every marking operation as a versioning step, "
+                         "selector re-validation, round trips and copies, memory and filesystem stores and their federation): TLC checks its invariants (frame, chain monotonicity through every "
+                         "producer of versions, no dangling selector, copies equal, nothing lost, lookups never stale, federation newest) " + SYSTEM_STAGE[pid] +
+                         "; TLC-generated behaviours (seven handles, two markings, six clock steps) are replayed call by call through the public interface and every produced object, read answer and "
+                         "error class is compared with the specification's; deviations are attributed to this property by the clause they break.")
+            if pid in GEN7:
+                text += " Generation-7 strengthening: " + GEN7[pid]
             checks.append({
                 "property_id": pid,
                 "quick_cmd": "./check %s --tier quick" % pid,
